@@ -54,6 +54,8 @@ func checkC05(c *Ctx) {
 		progs = append(progs, c.Prog(load.Purego))
 	}
 	prog := progs[0]
+	// "every private scalar d is mapped to the public point d*G": the key constructors (rule C10-3)
+	c10Constructors(c, prog)
 	c05File(c, prog)
 	c05Decoder(c, prog)
 	c05Odd(c, prog)
@@ -61,6 +63,11 @@ func checkC05(c *Ctx) {
 		c05BaseMult(c, p, "ScalarBaseMult")
 		c05BaseMult(c, p, "scalarBaseMultVartime")
 		c05Lookups(c, p)
+	}
+	if !c.Thorough() {
+		// "under both the assembly and the pure-Go lookup": the portable lookups are decided in the quick tier too (the
+		// ladders themselves are configuration-independent source and are analysed once)
+		c05Lookups(c, c.Prog(load.Purego))
 	}
 	c05Cast(c, prog)
 	c.R.Explanation = "Every one of the 8160 entries of the embedded table file is compared with (j+1)*256^i*G computed by independent big-integer arithmetic (exhaustive over the file); the decoder's index map is obtained by abstractly interpreting the table initialiser on a symbolic file (entry (i,j) = canonical decode of bytes ((i*255+j)*2+c)*32..+32); the odd-nibble tables are entries 16(j+1)-1 of the huge table; ScalarBaseMult and scalarBaseMultVartime are abstractly interpreted with the tables holding their specified multiples of G and the unrolled result is recognised as sum over all 64 nibbles (32 bytes) of the scalar encoding with weights 16^k, i.e. s*G; the affine/huge lookups add entry idx-1 for every index (16 resp. 256 indices enumerated) and nothing for index 0; the unsafe reinterpretation of a 255-entry table as its 15-entry prefix is layout-valid."
